@@ -3,6 +3,8 @@ import LemoModel.Ledger
 import LemoModel.HashFacts
 import Driver.EvmValue
 import Driver.C11Guard
+import LemoModel.LedgerDeposit
+import Driver.C06
 namespace Driver.C05
 open LemoModel.Ledger Driver
 
@@ -18,6 +20,7 @@ structure D where
   rf : Option RewardFacts := none   -- the `reward` line of the block being described
   votesLast : Bool := true
   flagCheck : Bool := true
+  paid : Nat → Int := fun _ => 0   -- the deposit book kept by construction (LemoModel.LedgerDeposit)
 
 def parseSigners (s : String) : Option (Option (List Nat)) :=
   if s == "!" then some none
@@ -37,11 +40,35 @@ def parsePairs : List String → Option (List (Nat × Nat))
       | _, _, _ => none
     | _ => none
 
+/-- the deposit entry a RegisterTx carries under the protected key: "-" = key absent, "x" = present but not a decimal
+    numeral, "n<v>" = the numeral v -/
+def parseTxDeposit (s : String) : Option (Option (Option Int)) :=
+  if s == "-" then some none
+  else if s == "x" then some (some none)
+  else if s.startsWith "n" then (parseInt? (s.drop 1).toString).map (fun v => some (some v))
+  else none
+
+/-- "-" = empty, else comma separated `key:value` labels -/
+def parseProfPairs (s : String) : Option (List (Nat × Nat)) :=
+  if s == "-" then some [] else parsePairs (s.splitOn ",")
+
+def insertPair (x : Nat × Nat) : List (Nat × Nat) → List (Nat × Nat)
+  | [] => [x]
+  | y :: ys => if x.1 ≤ y.1 then x :: y :: ys else y :: insertPair x ys
+
+/-- the opaque profile keys of an account, sorted by key label (a Go map has no order) -/
+def showProf (l : List (Nat × Nat)) : String :=
+  if l.isEmpty then "-"
+  else ";".intercalate ((l.foldl (fun acc x => insertPair x acc) []).map fun (k, v) => s!"{k}={v}")
+
 def parseKind : List String → Option Kind
   | ["transfer", to, v] => do some (.transfer (← to.toNat?) (← parseInt? v))
   | ["vote", c] => do some (.vote (← c.toNat?))
   | ["register", amt, flag, inc, nd] => do some (.register (← parseInt? amt) (← flag.toNat?) (← inc.toNat?) ((← nd.toNat?) == 1))
-  | "setsigners" :: tg :: tok :: "-" :: rest => do some (.setSigners (← tg.toNat?) (← parsePairs rest) ((← tok.toNat?) == 1))
+  | ["register", amt, flag, inc, nd, dep, oth] => do
+    some (.register (← parseInt? amt) (← flag.toNat?) (← inc.toNat?) ((← nd.toNat?) == 1)
+      { deposit := (← parseTxDeposit dep), others := (← parseProfPairs oth) })
+  | "setsigners" :: tg :: tok :: "-" :: rest => do some (.setSigners (← tg.toNat?) (← parsePairs rest) (← Driver.C06.tempTok tok))   -- tok = `<from hex>:<to hex>`: tempOk is LemoModel.TempAddr.verifyOk of the two addresses
   | ["box", _] => some .box
   | ["other"] => some .other
   | _ => none
@@ -54,11 +81,13 @@ def parseTx : List String → Option Tx
            kind := (← parseKind kind) }
   | _ => none
 
-def dump (d : D) (s : St) : String :=
+def dump (d : D) (s : St) (paid : Nat → Int) : String :=
   String.join (d.univ.map fun a =>
     let x := s.accts a
     let dep := match x.deposit with | none => "-" | some v => toString v
-    s!"{a}:{x.bal},{x.votes},{x.voteFor},{x.isCand},{dep},{x.income} ")
+    -- the book entry (deposit PAID by construction) of a registered candidate, next to the RECORDED deposit
+    let pd := if x.isCand == 1 then toString (paid a) else "-"
+    s!"{a}:{x.bal},{x.votes},{x.voteFor},{x.isCand},{dep},{x.income},{showProf x.prof},{pd} ")
 
 def joinC (l : List String) : String := ",".intercalate l
 
@@ -107,13 +136,14 @@ def step (d : D) (w : List String) : D × String :=
   | ["hashdata", "count", n] => (d, if n == "16" then "ok" else "table-mismatch")
   | "hashdata" :: rest => (d, if hashDataExpected.contains rest then "ok" else "table-mismatch")
   | ["hashfns", n] => (d, if n == toString LemoModel.HashFacts.expected.length then "ok" else "table-mismatch")
+  | "c06" :: rest => (d, Driver.C06.answer rest)   -- C06 additions: temp addresses bytewise, gate table (stateless)
   | "evmv" :: rest => (d, Driver.EvmValue.answer rest)   -- EVM value flow: LemoModel.EvmValue (stateless, one block per line)
   | ["rate", "vote", v, "deposit", dr, "precision", pr] =>
     -- the rates the property states literally = the defaults of `Ledger.Params`; anything else is a changed protocol constant
     let p0 : Params := {}
     (d, if parseInt? v == some p0.voteRate && parseInt? dr == some p0.depositRate && parseInt? pr == some p0.rewardPrecision
         then "ok" else "table-mismatch")
-  | ["reset"] => ({ d with accts := fun _ => {}, univ := [], txs := [], rf := none }, "ok")
+  | ["reset"] => ({ d with accts := fun _ => {}, univ := [], txs := [], rf := none, paid := fun _ => 0 }, "ok")
   | ["params", vr, dr, md, td, idur, pool, prec] =>
     match parseInt? vr, parseInt? dr, parseInt? md, td.toNat?, idur.toNat?, pool.toNat?, parseInt? prec with
     | some vr, some dr, some md, some td, some idur, some pool, some prec =>
@@ -129,8 +159,15 @@ def step (d : D) (w : List String) : D × String :=
     match l.toNat?, parseInt? bal, parseInt? votes, vf.toNat?, ic.toNat?, inc.toNat?, isDep.toNat? with
     | some l, some bal, some votes, some vf, some ic, some inc, some isDep =>
       let dp := if dep == "-" then none else parseInt? dep
-      ({ d with accts := upd d.accts l { bal := bal, votes := votes, voteFor := vf, isCand := ic, deposit := dp, income := inc, isDeputy := isDep == 1 } }, "ok")
+      -- (the book of a described state — genesis, re-synchronisation — opens with the recorded deposit: trusted initial state)
+      ({ d with accts := upd d.accts l { bal := bal, votes := votes, voteFor := vf, isCand := ic, deposit := dp, income := inc, isDeputy := isDep == 1 },
+                paid := upd d.paid l (dp.getD 0) }, "ok")
     | _, _, _, _, _, _, _ => (d, "bad-op")
+  | ["prof", l, oth] =>
+    -- the opaque profile keys of an account of the described state (genesis / re-synchronisation; follows its `acct` line)
+    match l.toNat?, parseProfPairs oth with
+    | some l, some ps => ({ d with accts := upd d.accts l { d.accts l with prof := ps } }, "ok")
+    | _, _ => (d, "bad-op")
   | "signers" :: l :: "-" :: rest =>
     match l.toNat?, parsePairs rest with
     | some l, some ps => ({ d with accts := upd d.accts l { d.accts l with signers := ps } }, "ok")
@@ -167,7 +204,8 @@ def step (d : D) (w : List String) : D × String :=
     if d.univ.any (fun a => decide ((s.accts a).votes < 0)) then (d, "panic") else
     let selS := joinC (sel.map fun (i, g) => s!"{i}:{g}")
     let invS := joinC ((inv.foldl (fun acc (i, _) => insertSorted i acc) []).map toString)
-    ({ d with accts := s.accts, txs := [], rf := none }, s!"sel={selS} inv={invS} gas={g} | {dump d s}")
+    let paid := paidBlock c s0 d.gp d.txs.reverse d.paid
+    ({ d with accts := s.accts, txs := [], rf := none, paid := paid }, s!"sel={selS} inv={invS} gas={g} | {dump d s paid}")
   | _ => (d, "bad-op")
 
 end Driver.C05
